@@ -34,6 +34,8 @@ CONSTANTS Routers,      \* router names
           Gen,          \* well-formed genesis ids (different trust roots): "g1", "g2" (same height, different data) and
                         \* "ghi" (another root at a height above everything the sync steps reach), so that a later attempt
                         \* comes at an equal height, above the synced tip (g1 .. ghi) and below the first root (ghi .. g1)
+          Deg,          \* "degenerate but accepted" roots (empty / zero optional fields, height 0, no validators): offered as FIRST
+                        \* installation only; whatever the stored root looks like, later attempts must fail
           Bad,          \* malformed genesis ids (rejected by every router in every state)
           Shape,        \* [Routers -> {"guard", "overwrite", "noop", "any"}]
           D,            \* behaviour length for P-REPLAY generation
@@ -55,7 +57,7 @@ Log(op, r, g) == /\ step' = [op |-> op, r |-> r, g |-> g]
 
 (* first installation of a well-formed genesis: succeeds, the root becomes `root` *)
 InstallFirst(r, g, root) ==
-    /\ ~installed[r] /\ g \in Gen
+    /\ ~installed[r] /\ g \in Gen \cup Deg
     /\ installed' = [installed EXCEPT ![r] = TRUE]
     /\ lc' = [lc EXCEPT ![r] = root]
     /\ res' = "ok" /\ Log("install", r, g)
@@ -98,6 +100,13 @@ SyncIgnored(r) ==
     /\ UNCHANGED <<installed, lc>>
     /\ res' = "ok" /\ Log("sync", r, "")
 
+(* a header the light client refuses although a root exists (e.g. no validator set to check it against): state unchanged;
+   only offered to trace validation - whether a header is acceptable is not this property's subject *)
+SyncRefused(r) ==
+    /\ installed[r] /\ r \in SyncRouters
+    /\ UNCHANGED <<installed, lc>>
+    /\ res' = "err" /\ Log("sync", r, "")
+
 (* model-level roots *)
 Syncs == Cardinality({i \in 1..Len(h) : h[i].op = "sync" /\ h[i].res = "ok"})
 FreshRoot(g) == g                 \* roots are strings so that model values and snapshot ids compare
@@ -106,7 +115,7 @@ Advance(x) == x \o "+"
 SameRouter(r) == IF h = <<>> THEN TRUE ELSE h[1].r = r
 Next == \E r \in Routers :
           /\ SameRouter(r)
-          /\ \/ \E g \in Gen \cup Bad :
+          /\ \/ \E g \in Gen \cup Bad \cup (IF installed[r] THEN {} ELSE Deg) :
                   \/ InstallFirst(r, g, FreshRoot(g))
                   \/ InstallReject(r, g)
                   \/ InstallOverwrite(r, g, FreshRoot(g))
